@@ -49,9 +49,20 @@ func grammarOf(body *ast.BlockStmt, skipCond string) grammarView {
 					}
 					return false
 				}
-				if inputDep(c + " ") {
-					gv.ifs = append(gv.ifs, c)
+				// a condition is compared conjunct by conjunct: conjuncts that look at the input are
+				// kept, conjuncts over the reader's own resume state (the parser's `ret.Len() == 0`:
+				// "no child read yet" - the traverser is never resumed inside a container, its
+				// empty-container test runs once, before the loop) have no counterpart
+				var parts []string
+				for _, cj := range conjuncts(x.Cond) {
+					if cs := norm(cj); inputDep(cs + " ") {
+						parts = append(parts, cs)
+					}
 				}
+				if len(parts) > 0 {
+					gv.ifs = append(gv.ifs, strings.Join(parts, " && "))
+				}
+				_ = c
 			case *ast.SwitchStmt:
 				if x.Tag == nil {
 					return true
@@ -80,7 +91,7 @@ func grammarOf(body *ast.BlockStmt, skipCond string) grammarView {
 
 func init() {
 	register(&core.Rule{ID: "S4", Min: 3,
-		Doc: "Sibling parity of the two recursive-descent readers in package ast: for (Parser.Parse, traverser.decodeValue), (Parser.decodeArray, traverser.decodeArray) and (Parser.decodeObject, traverser.decodeObject) the switches over the token type / delimiter byte have the same case sets, and (array/object) the input-dependent conditions (over self.p, self.s, ns, njs; the parser's skip-mode branch excluded) form the same sequence, so ast.Preorder accepts and delimits exactly what the parser does.",
+		Doc: "Sibling parity of the two recursive-descent readers in package ast: for (Parser.Parse, traverser.decodeValue), (Parser.decodeArray, traverser.decodeArray) and (Parser.decodeObject, traverser.decodeObject) the switches over the token type / delimiter byte have the same case sets, and (array/object) the input-dependent conditions (over self.p, self.s, ns, njs; the parser's skip-mode branch and conjuncts over its resume state excluded) form the same sequence, so ast.Preorder accepts and delimits exactly what the parser does.",
 		Run: runS4})
 }
 
